@@ -142,6 +142,13 @@ def _case(draw):
             case["label"] = draw(st.sampled_from(c["labels"]))
     if draw(st.integers(0, 5)) == 0:
         case["inject"] = {"pos": draw(st.integers(0, 30)), "ch": draw(st.sampled_from(FOREIGN))}
+    # how the user lists reach the class: in one go, or as a history (a shorter list, a first parse, then add_known_* of the
+    # rest; or a longer list, a first parse, then remove_known_*).  The final lists are the same in content and order.
+    if c["install"]:
+        case["route"] = draw(st.sampled_from(["set", "set", "add", "add", "remove"]))
+        if case["route"] == "add":
+            case["split"] = [draw(st.integers(1, len(c["elements"]))), draw(st.integers(0, len(c["pseudo"])))]
+        case["pseudo_first"] = draw(st.booleans())
     return case
 
 
@@ -289,19 +296,67 @@ def check_raw(case):
     return CaseResult(failures, True, [f"cfg-{case['cfg']}", "raw-accepted"], sample={"name": name, "expect": want})
 
 
+EXTRA_ELEMENTS, EXTRA_PSEUDO = ["Zz", "QQ"], ["QRP"]
+
+
+def install(case, c):
+    """Install the user lists of configuration c through the route of the case; whatever the route, the lists end up as c says."""
+    from naunet.species import Species
+
+    route = case.get("route", "set")
+    if route == "set":
+        Species.set_known_elements(list(c["elements"]))
+        Species.set_known_pseudoelements(list(c["pseudo"]))
+        Species._replacement = dict(c["replacement"])
+        return
+    if route == "add":
+        ke, kp = case["split"]
+        first_e, first_p = list(c["elements"][:ke]), list(c["pseudo"][:kp])
+    else:
+        first_e, first_p = list(c["elements"]) + EXTRA_ELEMENTS, list(c["pseudo"]) + EXTRA_PSEUDO
+    Species.set_known_elements(first_e)
+    Species.set_known_pseudoelements(first_p)
+    Species._replacement = dict(c["replacement"])
+    # looks at names under the preliminary lists, after every step of the history (their outcome is not judged: the lists are
+    # not the configured ones yet)
+    warm = [first_e[0] + "2", "".join(first_e[:2])]
+    if case["kind"] != "raw":
+        warm.append(spell(case, c)[0])
+
+    def look():
+        for w in warm:
+            try:
+                sp = Species(w, **c["kwargs"])
+                sp.element_count, sp.charge, sp.is_surface
+            except Exception:
+                pass
+
+    look()
+    if route == "add":
+        steps = [lambda: Species.add_known_elements(list(c["elements"][ke:])), lambda: Species.add_known_pseudoelements(list(c["pseudo"][kp:]))]
+    else:
+        steps = [lambda: Species.remove_known_elements(list(EXTRA_ELEMENTS)), lambda: Species.remove_known_pseudoelements(list(EXTRA_PSEUDO))]
+    if case.get("pseudo_first"):
+        steps.reverse()
+    steps[0]()
+    look()
+    steps[1]()
+    assert Species._known_elements == list(c["elements"]) and Species._known_pseudoelements == list(c["pseudo"]), "harness: route did not install the configured lists"
+
+
 def check_case(case, tier):
     from naunet.species import Species
 
     N.reset_naunet_state()
     c = CFG[case["cfg"]]
+    route_labels = []
     if c["install"]:
-        Species.set_known_elements(list(c["elements"]))
-        Species.set_known_pseudoelements(list(c["pseudo"]))
-        Species._replacement = dict(c["replacement"])
+        install(case, c)
+        route_labels = [f"route-{case.get('route', 'set')}"]
     if case["kind"] == "raw":
         return check_raw(case)
     name, spans = spell(case, c)
-    labels = [f"cfg-{case['cfg']}", f"kind-{case['kind']}"]
+    labels = [f"cfg-{case['cfg']}", f"kind-{case['kind']}"] + route_labels
     failures = []
     rep = c["replacement"]
 
